@@ -21,7 +21,7 @@ def _run(ctx, binary, fam, behs, env=None, timeout=None):
         per = float(os.environ.get("VERIF_STEP_S", "0.004"))
         if "_race" in os.path.basename(binary):
             per *= 25          # the whole-image diff after every step is an order of magnitude slower when instrumented
-        timeout = int(60 + steps * per * 4)
+        timeout = int(120 + steps * per * 12)   # generous: the per-behaviour watchdog (30 s) catches real hangs; this only bounds a frozen run
     fin, fout = ctx.path("beh_%s.ndjson" % fam), ctx.path("res_%s.ndjson" % fam)
     vlib.write_ndjson(fin, behs)
     if os.path.exists(fout):
